@@ -25,6 +25,9 @@ use rumqttc::mqttbytes::v4 as c4;
 use rumqttd::protocol as b;
 use rumqttd::protocol::Protocol as _;
 
+#[path = "codec/v5.rs"]
+mod v5;
+
 // ------------------------------------------------------------------ canonical packet
 
 #[derive(Clone, Debug, PartialEq)]
@@ -772,87 +775,41 @@ fn dec(fl: &str, max: usize, bytes: &[u8]) -> String {
     }
 }
 
-/// Feed the chunks one at a time; after each chunk the reader future is polled until it is
-/// blocked on the (empty) socket, so every chunk boundary is seen by the real framing loop.
-fn stream(fl: &str, max: usize, chunks: &[Vec<u8>]) -> String {
+/// link::network::Error is not nameable from outside the crate: classify it by its
+/// Debug (variant, io kind) and Display ("I/O = <msg>") output.
+fn net_term<E: std::fmt::Debug + std::fmt::Display>(e: E) -> String {
+    let d = format!("{e:?}");
+    if let Some(inner) = d.strip_prefix("Protocol(") {
+        format!("MAL {}", kind_of_debug(inner))
+    } else if d.starts_with("Io(") && d.contains("ConnectionAborted") {
+        "END clean".into()
+    } else if d.starts_with("Io(") && d.contains("ConnectionReset") {
+        "END partial".into()
+    } else if d.starts_with("Io(") && d.contains("InvalidData") {
+        let m = e.to_string();
+        format!("MAL {}", b_kind_of_msg(m.strip_prefix("I/O = ").unwrap_or(&m)))
+    } else {
+        format!("OTHER {d}").replace(' ', "_")
+    }
+}
+
+type Out = Rc<RefCell<Vec<String>>>;
+type Reader = std::pin::Pin<Box<dyn Future<Output = ()>>>;
+
+/// Feed the chunks one at a time through an in-memory duplex; after each chunk the reader future
+/// (built by `mk` around the real framing code) is polled until it is blocked on the (empty)
+/// socket, so every chunk boundary is seen by the real framing loop.
+fn run_stream(chunks: &[Vec<u8>], mk: impl FnOnce(tokio::io::DuplexStream, Out) -> Reader + 'static) -> String {
     use tokio::io::AsyncWriteExt;
     let total: usize = chunks.iter().map(|c| c.len()).sum();
-    let out: Rc<RefCell<Vec<String>>> = Rc::new(RefCell::new(vec![]));
+    let out: Out = Rc::new(RefCell::new(vec![]));
     let out2 = out.clone();
-    let fl = fl.to_string();
     let chunks = chunks.to_vec();
     let r = catch_unwind(AssertUnwindSafe(move || {
         let rt = tokio::runtime::Builder::new_current_thread().enable_all().build().unwrap();
         rt.block_on(tokio::task::unconstrained(async move {
             let (mut tx, rx) = tokio::io::duplex(total + 16);
-            let out = out2;
-            let reader: std::pin::Pin<Box<dyn Future<Output = ()>>> = if fl == "C" {
-                let mut net = rumqttc::verif::Network::new(rx, max, usize::MAX);
-                Box::pin(async move {
-                    loop {
-                        match net.read().await {
-                            Ok(p) => out.borrow_mut().push(format!("PKT {}", show_canon(&from_client(p)))),
-                            Err(rumqttc::StateError::ConnectionAborted) => {
-                                out.borrow_mut().push("END clean".into());
-                                break;
-                            }
-                            // tokio_util Framed at EOF with an undecodable remainder: io error "bytes remaining on stream"
-                            Err(rumqttc::StateError::Deserialization(c::Error::Io(_))) => {
-                                out.borrow_mut().push("END partial".into());
-                                break;
-                            }
-                            Err(rumqttc::StateError::Deserialization(e)) => {
-                                out.borrow_mut().push(format!("MAL {}", c_kind(&e)));
-                                break;
-                            }
-                            Err(e) => {
-                                out.borrow_mut().push(format!("OTHER {e:?}").replace(' ', "_"));
-                                break;
-                            }
-                        }
-                    }
-                })
-            } else {
-                let mut net = rumqttd::verif::Network::new(Box::new(rx), max, 4, b::v4::V4);
-                Box::pin(async move {
-                    // link::network::Error is not nameable from outside the crate: classify it by its
-                    // Debug (variant, io kind) and Display ("I/O = <msg>") output.
-                    fn term<E: std::fmt::Debug + std::fmt::Display>(e: E) -> String {
-                        let d = format!("{e:?}");
-                        if let Some(inner) = d.strip_prefix("Protocol(") {
-                            format!("MAL {}", kind_of_debug(inner))
-                        } else if d.starts_with("Io(") && d.contains("ConnectionAborted") {
-                            "END clean".into()
-                        } else if d.starts_with("Io(") && d.contains("ConnectionReset") {
-                            "END partial".into()
-                        } else if d.starts_with("Io(") && d.contains("InvalidData") {
-                            let m = e.to_string();
-                            format!("MAL {}", b_kind_of_msg(m.strip_prefix("I/O = ").unwrap_or(&m)))
-                        } else {
-                            format!("OTHER {d}").replace(' ', "_")
-                        }
-                    }
-                    loop {
-                        match net.read().await {
-                            Ok(p) => out.borrow_mut().push(format!("PKT {}", show_canon(&from_broker(p)))),
-                            Err(e) => {
-                                out.borrow_mut().push(term(e));
-                                break;
-                            }
-                        }
-                        let mut q = VecDeque::new();
-                        let r = net.readv(&mut q);
-                        for p in q {
-                            out.borrow_mut().push(format!("PKT {}", show_canon(&from_broker(p))));
-                        }
-                        if let Err(e) = r {
-                            out.borrow_mut().push(term(e));
-                            break;
-                        }
-                    }
-                })
-            };
-            let mut reader = reader;
+            let mut reader = mk(rx, out2);
             let mut done = false;
             for ch in chunks.iter() {
                 tx.write_all(ch).await.unwrap();
@@ -874,6 +831,62 @@ fn stream(fl: &str, max: usize, chunks: &[Vec<u8>]) -> String {
     parts.join(" | ")
 }
 
+fn stream(fl: &str, max: usize, chunks: &[Vec<u8>]) -> String {
+    if fl == "C" {
+        run_stream(chunks, move |rx, out| {
+            let mut net = rumqttc::verif::Network::new(rx, max, usize::MAX);
+            Box::pin(async move {
+                loop {
+                    match net.read().await {
+                        Ok(p) => out.borrow_mut().push(format!("PKT {}", show_canon(&from_client(p)))),
+                        Err(rumqttc::StateError::ConnectionAborted) => {
+                            out.borrow_mut().push("END clean".into());
+                            break;
+                        }
+                        // tokio_util Framed at EOF with an undecodable remainder: io error "bytes remaining on stream"
+                        Err(rumqttc::StateError::Deserialization(c::Error::Io(_))) => {
+                            out.borrow_mut().push("END partial".into());
+                            break;
+                        }
+                        Err(rumqttc::StateError::Deserialization(e)) => {
+                            out.borrow_mut().push(format!("MAL {}", c_kind(&e)));
+                            break;
+                        }
+                        Err(e) => {
+                            out.borrow_mut().push(format!("OTHER {e:?}").replace(' ', "_"));
+                            break;
+                        }
+                    }
+                }
+            })
+        })
+    } else {
+        run_stream(chunks, move |rx, out| {
+            let mut net = rumqttd::verif::Network::new(Box::new(rx), max, 4, b::v4::V4);
+            Box::pin(async move {
+                loop {
+                    match net.read().await {
+                        Ok(p) => out.borrow_mut().push(format!("PKT {}", show_canon(&from_broker(p)))),
+                        Err(e) => {
+                            out.borrow_mut().push(net_term(e));
+                            break;
+                        }
+                    }
+                    let mut q = VecDeque::new();
+                    let r = net.readv(&mut q);
+                    for p in q {
+                        out.borrow_mut().push(format!("PKT {}", show_canon(&from_broker(p))));
+                    }
+                    if let Err(e) = r {
+                        out.borrow_mut().push(net_term(e));
+                        break;
+                    }
+                }
+            })
+        })
+    }
+}
+
 fn main() {
     silence_panics();
     let stdin = io::stdin();
@@ -885,18 +898,17 @@ fn main() {
             continue;
         }
         let ans = match t[0] {
-            "ENC" => {
-                assert_eq!(t[1], "4");
-                enc(t[2], num(t[3]), &parse_canon(&t[4..]))
-            }
-            "DEC" => {
-                assert_eq!(t[1], "4");
-                dec(t[2], num(t[3]), &unhex(t[4]))
-            }
-            "STREAM" => {
-                assert_eq!(t[1], "4");
+            "ENC" if t[1] == "4" => enc(t[2], num(t[3]), &parse_canon(&t[4..])),
+            "DEC" if t[1] == "4" => dec(t[2], num(t[3]), &unhex(t[4])),
+            "STREAM" if t[1] == "4" => {
                 let chunks: Vec<Vec<u8>> = t[4..].iter().map(|c| unhex(c)).collect();
                 stream(t[2], num(t[3]), &chunks)
+            }
+            "ENC" if t[1] == "5" => v5::enc5(t[2], t[3], &v5::parse_canon5(&t[4..])),
+            "DEC" if t[1] == "5" => v5::dec5(t[2], t[3], &unhex(t[4])),
+            "STREAM" if t[1] == "5" => {
+                let chunks: Vec<Vec<u8>> = t[4..].iter().map(|c| unhex(c)).collect();
+                v5::stream5(t[2], t[3], &chunks)
             }
             "UTF8" => {
                 let v = unhex(t[1]);
